@@ -7,7 +7,7 @@ from .hist import Lifetimes, must_ok
 
 RULE = ("history = 3-6 contexts (single writer, so apply order = issue order) x 2 event types interleaved, with FLUSH / auto-flush / "
         "deterministic compaction rounds / clean restarts placed between the appends (exhaustive placements for short sequences, random "
-        "beyond) x zone sizes 1-3, fill 1-3, merge fan-in 2-3; every REPLAY [type] FOR ctx [SINCE] [RETURN] is asked without delay and "
+        "beyond) x zone sizes 1-3, fill 1-3, merge fan-in 2-3 x wall clock real / stepping back and forth between appends (scripted clock hook); every REPLAY [type] FOR ctx [SINCE] [RETURN] is asked without delay and "
         "with a delay armed at rd.memtable_flow_start resp. rd.segment_flow_start (forcing both arrival orders of the memory and segment "
         "streams); oracle: sequence equality with the per-context append list; distinct_nontrivial counts distinct (layout class of the "
         "context's events, replay form, schedule) combinations with >=2 events")
@@ -36,6 +36,11 @@ def history_task(task, wdir, res):
         nsteps = task["steps"]
         plan = task.get("plan")               # explicit placement list for the exhaustive part
         t0 = 1700000000
+        stepping = bool(task.get("clock") == "stepping")
+        clock_ms = [1700000500000]
+        if stepping:
+            node.meta(f"clock auto {clock_ms[0]} 300")
+        witness["clock"] = "stepping" if stepping else "real"
 
         def tier_update(new_tier, only=None):
             for c in ctxs:
@@ -102,6 +107,11 @@ def history_task(task, wdir, res):
             if op == "store":
                 for _ in range(rng.randint(1, 3)):
                     k += 1
+                    if stepping and rng.random() < 0.35:
+                        # the wall clock steps (NTP correction, VM resume): core timestamps are not monotone in append order
+                        clock_ms[0] += rng.choice([-7000, -3000, -1000, -1000, 2000, 60000])
+                        node.meta(f"clock auto {clock_ms[0]} 300")
+                        res.count("clock_steps")
                     c = rng.choice(ctxs)
                     ty = "ev2" if rng.random() < 0.25 else "ev"
                     must_ok(node.cmd(gen.store_cmd(ty, c, {"k": k, "t": t0 + k})), "store")
@@ -119,6 +129,8 @@ def history_task(task, wdir, res):
                     tier_update(lambda tr: tr if (tr == "mem" or tr.endswith("compacted")) else tr + "_or_compacted")
             elif op == "restart":
                 node = lt.restart_clean()
+                if stepping:
+                    node.meta(f"clock auto {clock_ms[0]} 300")
                 tier_update(flushed)
             if step % 2 == 1 or step == nsteps - 1:
                 check_all(f"after step {step} ({op})")
@@ -139,10 +151,12 @@ def run(run):
             plan.insert(pos, extra)
             if extra == "compact":
                 plan = ["store", "flush", "store", "flush"] + plan
-            tasks.append({"name": f"ex{ex}", "seed": run.rng("ex", ex).getrandbits(40), "steps": len(plan), "plan": plan}); ex += 1
+            tasks.append({"name": f"ex{ex}", "seed": run.rng("ex", ex).getrandbits(40), "steps": len(plan), "plan": plan,
+                          "clock": "stepping" if ex % 2 else "real"}); ex += 1
     n = 16 if quick else 500
     for i in range(n):
-        tasks.append({"name": f"h{i}", "seed": run.rng("h", i).getrandbits(40), "steps": 14 if quick else 24})
+        tasks.append({"name": f"h{i}", "seed": run.rng("h", i).getrandbits(40), "steps": 14 if quick else 24,
+                      "clock": "stepping" if i % 2 else "real"})
     run.min_distinct = 20
     run.assumptions = ["one writer per history: apply order per context = issue order", "layout classes in signatures are derived from the history "
                        "(mem / l0 / compacted, with *_or_* where auto-flush or partial compaction makes the tier of an event uncertain)"]
@@ -152,4 +166,4 @@ def run(run):
 def replay(run, path):
     with open(path) as f:
         w = json.load(f)["witness"]
-    run.parallel(history_task, [{"name": "replay", "seed": w["seed"], "steps": len(w["ops"]), "plan": w["ops"]}], nproc=1)
+    run.parallel(history_task, [{"name": "replay", "seed": w["seed"], "steps": len(w["ops"]), "plan": w["ops"], "clock": w.get("clock", "real")}], nproc=1)
